@@ -15,7 +15,7 @@ import time
 
 
 def uri_of(path):
-    return "file://" + path
+    return path if path.startswith("untitled:") else "file://" + path
 
 
 def path_of(uri):
@@ -157,6 +157,10 @@ class Server:
 
     def did_change(self, path, text, version=2):
         return self.notify("textDocument/didChange", {"textDocument": {"uri": uri_of(path), "version": version}, "contentChanges": [{"text": text}]})
+
+    def did_change_multi(self, path, texts, version=2):
+        """didChange with any number of (full text) entries; the last one is the client's buffer"""
+        return self.notify("textDocument/didChange", {"textDocument": {"uri": uri_of(path), "version": version}, "contentChanges": [{"text": t} for t in texts]})
 
     def did_close(self, path):
         return self.notify("textDocument/didClose", {"textDocument": {"uri": uri_of(path)}})
